@@ -1120,6 +1120,16 @@ func c19ValidateReader(r *Run) {
 		a := c05Classify(site, p, &notes)
 		allNotes = append(allNotes, notes...)
 		if !is(a.valid, true) {
+			// a path that keeps the active replica set although a canary is in progress must have
+			// refuted the validation first: otherwise validation is not consulted at all on that path
+			// (e.g. a paused canary short-circuits before IsCanaryDeploymentValid is evaluated)
+			ret0 := returnOf(p.Blocks[len(p.Blocks)-1])
+			res0 := unwrap(p.Resolve(ret0.Results[0]))
+			if res0 == ssa.Value(act) && is(a.eqActive, false) && is(a.activeNil, false) && is(a.noCanary, false) {
+				r.Check("C19.R5", "keeps active on path ["+describeAtoms(a)+"]", r.Prog.Pos(instrPos(ret0)), shortFunc(fn),
+					"the active replica set is kept during a canary only on paths where canary-valid was evaluated and is false", is(a.valid, false),
+					"this path decides not to promote without consulting the canary-valid annotation")
+			}
 			continue
 		}
 		n++
